@@ -1209,9 +1209,11 @@ class LangServer:
             if (impl_obj is not None) and (impl_obj.file_ast.file is not None):
                 return self._create_ref_link(impl_obj)
         elif var_obj.parent.get_type() == INTERFACE_TYPE_ID:
-            # Find the first implementation of the interface
-            if var_obj.link_obj is not None:
-                return self._create_ref_link(var_obj.link_obj)
+            # Find the first implementation of the interface; only procedure
+            # prototypes have one, a type declared in the block does not
+            impl_obj = getattr(var_obj, "link_obj", None)
+            if impl_obj is not None:
+                return self._create_ref_link(impl_obj)
         return None
 
     def serve_rename(self, request: dict):
